@@ -475,6 +475,22 @@ func c13Replacements() ([][]byte, []string) {
 		big[0].Dur = 1<<32 - 1
 		f, err = buildFMP4(tr2, [][]sUnit{big}, 0)
 		add("sample duration 2^32-1", f, err)
+		// two fields that only make sense together: a sample of 6.6 hours followed by one whose composition offset takes its
+		// presentation time back to where it would have been - decoded far ahead of the clock, presented on time
+		for _, d := range []int64{0x7FFFF000, 90000 * 11, 90000 * 3600} {
+			far := vu(0, 0, 2)
+			far[0].Dur = d
+			far[1].DTS = d
+			far[1].PTSOff = -d + 3000
+			f, err = buildFMP4(tr2, [][]sUnit{far}, 0)
+			add(fmt.Sprintf("sample duration %d followed by composition offset %d", d, -d+3000), f, err)
+			farA := append(vu(0, 0, 2), au(1, 0, 2)...)
+			farA[0].Dur = d
+			farA[1].DTS = d
+			farA[1].PTSOff = -d + 3000
+			f, err = buildFMP4(tr2, [][]sUnit{farA}, 0)
+			add(fmt.Sprintf("video sample duration %d followed by composition offset %d, audio on time", d, -d+3000), f, err)
+		}
 		// MPEG-TS payloads with other codecs / no leading track / nothing supported
 		for _, ks := range [][]string{{"h265"}, {"opus"}, {"mp3"}, {"ac3"}, {"h265", "aac"}, {"h264", "opus"}, {"h264", "ac3"}, {"mp3", "h264"}} {
 			var tracks []sTrack
